@@ -367,6 +367,8 @@ def rule_order(ctx):
     # per-stream FIFO on the wire: a terminal/control frame must not overtake fragments of its own stream
     from .c05 import rule_a as c05a
     c05a(ctx)
+    from .c05 import rule_f as c05f_
+    c05f_(ctx)
 
 
 def rule_i(ctx):
